@@ -39,7 +39,7 @@ func (c07) Batches(tier string, seed uint64) []core.Batch {
 
 func (c07) Mandatory(tier string) []string {
 	return []string{"doc:comment-between-continuations", "doc:crlf-blank-separator", "doc:empty-first-line", "doc:no-final-newline-after-continuation", "doc:dot-line",
-		"doc:tab-marker", "doc:line>=4096-bytes", "doc:blank-run>=2", "doc:leading-blank-lines", "doc:zero-paragraphs", "doc:mixed-line-endings", "doc:indented-continuation",
+		"doc:tab-marker", "doc:line>=4096-bytes", "doc:free-standing-comment-block", "doc:blank-run>=2", "doc:leading-blank-lines", "doc:zero-paragraphs", "doc:mixed-line-endings", "doc:indented-continuation",
 		"path:Next", "path:All", "path:Unmarshal-slice", "path:Decoder.Decode", "reader:string", "reader:onebyte", "reader:half", "reader:chunks", "reader:data+EOF",
 		"inv:paragraph-returned", "inv:error-returned"}
 }
@@ -226,7 +226,13 @@ func (p c07) docCase(c *core.C, d model.Doc, seed uint64) {
 	if d.CRLF == 2 {
 		c.Cover("doc:mixed-line-endings")
 	}
+	if len(d.LeadLoose) > 0 {
+		c.Cover("doc:free-standing-comment-block")
+	}
 	for pi, pa := range d.Paras {
+		if len(pa.Loose) > 0 && pa.Sep > 0 {
+			c.Cover("doc:free-standing-comment-block")
+		}
 		if pa.Sep >= 2 {
 			c.Cover("doc:blank-run>=2")
 		}
